@@ -179,7 +179,10 @@ def build_scheduler(desc, sort_wrapper=None):
         sf = sort_fn(sd["sort"])
         if sort_wrapper is not None:
             sf = sort_wrapper(sf, sd["sort"])
-        return cls(sf, **kw)
+        algo = cls(sf, **kw)
+        if sd.get("mr") is not None:
+            algo.max_recompute = sd["mr"]  # public attribute of every algorithm: periods between forced recomputes
+        return algo
     raise ValueError(sd["kind"])
 
 
